@@ -389,6 +389,8 @@ pub struct RunCfg {
     pub seed: u64,
     pub jobs: usize,
     pub verif_dir: std::path::PathBuf,
+    /// confirmation only: re-run each listed case after the cases that preceded it in its chunk
+    pub history_window: bool,
 }
 
 impl RunCfg {
@@ -409,6 +411,7 @@ impl RunCfg {
             .map(std::path::PathBuf::from)
             .unwrap_or_else(|_| std::path::PathBuf::from("/verif"));
         RunCfg {
+            history_window: false,
             tier: tier.to_string(),
             seed,
             jobs,
@@ -467,7 +470,12 @@ pub fn explore(
     let mut chunks: Vec<(u64, u64)> = vec![];
     if let Some(list) = only {
         for i in list {
-            chunks.push(space.confirm_range(i));
+            if cfg.history_window {
+                let (a, b) = space.confirm_range(i);
+                chunks.push((a.min(i - i % chunk), b));
+            } else {
+                chunks.push(space.confirm_range(i));
+            }
         }
         chunks.sort();
         chunks.dedup();
@@ -706,6 +714,7 @@ pub fn check_main(space: &(dyn Space + Sync), cfg: &RunCfg) -> i32 {
     reps.truncate(40);
     if !reps.is_empty() {
         let cfg1 = RunCfg {
+            history_window: false,
             tier: cfg.tier.clone(),
             seed: cfg.seed,
             jobs: cfg.jobs.min(reps.len()),
@@ -718,7 +727,30 @@ pub fn check_main(space: &(dyn Space + Sync), cfg: &RunCfg) -> i32 {
                     .iter()
                     .map(|v| (v.idx, v.sig.clone()))
                     .collect();
+                let mut again_set = again_set;
+                // A violation that does not recur when its case runs alone may depend on what ran
+                // before it in the same worker - hidden state in the subject, which breaks the
+                // property by itself.  Second stage: re-run it after the cases that preceded it in
+                // its chunk; if it recurs there it is reported, marked as history-dependent.
+                let lonely: Vec<u64> = unknown
+                    .iter()
+                    .filter(|v| reps.contains(&v.idx) && !again_set.contains(&(v.idx, v.sig.clone())) && !v.sig.starts_with("timeout"))
+                    .map(|v| v.idx)
+                    .collect();
+                if !lonely.is_empty() {
+                    let cfg2 = RunCfg { history_window: true, tier: cfg.tier.clone(), seed: cfg.seed, jobs: cfg.jobs.min(lonely.len()), verif_dir: cfg.verif_dir.clone() };
+                    if let Ok(hist) = explore(space, &cfg2, Some(lonely.clone())) {
+                        for v in hist.violations {
+                            if lonely.contains(&v.idx) {
+                                eprintln!("[{}] violation recurs only after the preceding cases of its chunk (history-dependent): {}", id, util::clip(&v.case, 100));
+                                agg.caps.push(format!("history-dependent violation (recurs only after the preceding cases of its chunk): {}", util::clip(&v.case, 100)));
+                                again_set.insert((v.idx, v.sig.clone()));
+                            }
+                        }
+                    }
+                }
                 let mut dropped: HashSet<String> = HashSet::new();
+                let mut unreproduced: Vec<FoundViolation> = vec![];
                 for v in &unknown {
                     if reps.contains(&v.idx) && !again_set.contains(&(v.idx, v.sig.clone())) {
                         if v.sig.starts_with("timeout") {
@@ -729,15 +761,29 @@ pub fn check_main(space: &(dyn Space + Sync), cfg: &RunCfg) -> i32 {
                             dropped.insert(v.sig.clone());
                             continue;
                         }
-                        // a non-reproducing violation is a machinery error
+                        unreproduced.push(v.clone());
+                        dropped.insert(v.sig.clone());
+                    }
+                }
+                confirmed = unknown.iter().filter(|v| !dropped.contains(&v.sig)).cloned().collect();
+                if !unreproduced.is_empty() {
+                    if confirmed.is_empty() {
+                        // nothing of what was seen can be shown again: a machinery error, not a verdict
+                        let v = &unreproduced[0];
                         eprintln!(
                             "MACHINERY-ERROR {}: violation did not reproduce: idx={} sig={} case={}",
                             id, v.idx, v.sig, v.case
                         );
                         return 2;
                     }
+                    // other violations of this run are confirmed, so the verdict stands; what recurs
+                    // neither alone nor after its chunk's history (state from still earlier cases of
+                    // the same worker) is recorded, not reported
+                    for v in &unreproduced {
+                        eprintln!("[{}] seen once, not reproduced (depends on earlier history of its worker), not reported: {}", id, util::clip(&v.case, 100));
+                        agg.caps.push(format!("seen once, not reproduced, not reported: {} / {}", util::clip(&v.sig, 80), util::clip(&v.case, 100)));
+                    }
                 }
-                confirmed = unknown.iter().filter(|v| !dropped.contains(&v.sig)).cloned().collect();
             }
             Err(e) => {
                 eprintln!("MACHINERY-ERROR {}: confirmation run failed: {}", id, e);
